@@ -4,6 +4,7 @@
      [id, items, queries, gcc |-> [bits, signed, vals], cffi |-> <<[mode, ok, err, bits, signed, vals, strs]>>]
    vals: one Z-value per enumerator; strs: one [isdec, name, val] per query (ffi.string of
    ffi.cast(enum, query); empty sequence if the mode did not observe strings).
+   items: see Enum.tla (k = "explicit" | "implicit" | "ref" | "char"; every item carries v, ref, sp, cneg).
    Output: <<"VERDICT", id, who, clause, index>> per failing clause and <<"CHECKED", id>>.
      who = "class" | "gcc" | "cffi:<mode>" | "model:<mode>"                               *)
 EXTENDS Enum, Json, IOUtils
@@ -39,9 +40,9 @@ Check(r) ==
        \E mbase \in {ModeBase(o.mode, mvals)} :
        IF ~o.ok
        THEN /\ Say(FALSE, r.id, "cffi:" \o o.mode, "rejected", 0)
-            /\ Say(mbase.err # "", r.id, "model:" \o o.mode, "rejected", 0)
+            /\ Say(mbase.err # "" \/ ~CffiParses(r.items), r.id, "model:" \o o.mode, "rejected", 0)
        ELSE /\ Compare(r.id, "cffi:" \o o.mode, o, vals, base, strs)
-            /\ IF mbase.err # "" THEN Say(FALSE, r.id, "model:" \o o.mode, "accepted", 0)
+            /\ IF mbase.err # "" \/ ~CffiParses(r.items) THEN Say(FALSE, r.id, "model:" \o o.mode, "accepted", 0)
                ELSE \E d \in {CffiDict2(r.items, mvals, mbase)} :
                     Compare(r.id, "model:" \o o.mode, o, mvals, [bits |-> mbase.bits, signed |-> mbase.signed],
                             [i \in 1..Len(qs) |-> CffiString(d, qs[i])])
